@@ -6,6 +6,14 @@ SUSPECT_IMPORTS = {'random', 'time', 'uuid', 'secrets', 'datetime', 'tempfile', 
 CACHE_DECOS = {'lru_cache', 'cache', 'cached_property'}
 MUTATING = {'append', 'extend', 'add', 'update', 'pop', 'remove', 'clear', 'insert', 'setdefault', 'discard', 'popitem'}
 
+def is_mutable_expr(e):
+    if isinstance(e, (ast.List, ast.Dict, ast.Set, ast.ListComp, ast.DictComp, ast.SetComp)): return True
+    if isinstance(e, ast.Call):
+        f = e.func
+        name = f.id if isinstance(f, ast.Name) else (f.attr if isinstance(f, ast.Attribute) else '')
+        return name in ('list', 'dict', 'set', 'defaultdict', 'OrderedDict', 'Counter', 'deque', 'bytearray')
+    return False
+
 def inventory(path, modname):
     tree = ast.parse(open(path).read())
     items = []
@@ -20,7 +28,30 @@ def inventory(path, modname):
             mods = [a.name.split('.')[0] for a in n.names] if isinstance(n, ast.Import) else [(n.module or '').split('.')[0]]
             for m in mods:
                 if m in SUSPECT_IMPORTS: items.append((modname, 'import', m))
+        if isinstance(n, ast.ClassDef):
+            # class-level containers are shared by every instance (and every conversion in the process)
+            for st in n.body:
+                if isinstance(st, (ast.Assign, ast.AnnAssign)) and st.value is not None and is_mutable_expr(st.value):
+                    for t in (st.targets if isinstance(st, ast.Assign) else [st.target]):
+                        if isinstance(t, ast.Name): items.append((modname, 'class-level-container', n.name + '.' + t.id))
+        if isinstance(n, (ast.FunctionDef, ast.AsyncFunctionDef, ast.Lambda)):
+            # a mutable default is created once and lives as long as the process
+            for dflt in list(n.args.defaults) + [d for d in n.args.kw_defaults if d is not None]:
+                if is_mutable_expr(dflt): items.append((modname, 'mutable-default', getattr(n, 'name', '<lambda>')))
         if isinstance(n, (ast.FunctionDef, ast.AsyncFunctionDef)):
+            # local aliases of module-level names (x = MODULE_NAME; x.add(...))
+            aliases = {}
+            for x in ast.walk(n):
+                if isinstance(x, ast.Assign) and isinstance(x.value, ast.Name) and x.value.id in module_names:
+                    for t in x.targets:
+                        if isinstance(t, ast.Name): aliases[t.id] = x.value.id
+            for x in ast.walk(n):
+                if isinstance(x, ast.Call) and isinstance(x.func, ast.Attribute) and x.func.attr in MUTATING and isinstance(x.func.value, ast.Name) and x.func.value.id in aliases:
+                    items.append((modname, 'mutates-module-state-through-alias:' + x.func.attr, aliases[x.func.value.id]))
+                if isinstance(x, (ast.Assign, ast.AugAssign)):
+                    for t in (x.targets if isinstance(x, ast.Assign) else [x.target]):
+                        if isinstance(t, ast.Subscript) and isinstance(t.value, ast.Name) and t.value.id in aliases:
+                            items.append((modname, 'mutates-module-state-through-alias:setitem', aliases[t.value.id]))
             for d in n.decorator_list:
                 name = d.func if isinstance(d, ast.Call) else d
                 name = name.attr if isinstance(name, ast.Attribute) else getattr(name, 'id', '?')
